@@ -55,7 +55,27 @@ struct S { 1: T f, 2: optional T g, 3: list<T> l, 4: map<T, T> m }
 exception E { 1: string msg }
 service S { i64 put() throws (0: E e) }
 `
+	underA := `namespace go under.types
+struct Bucket { 1: double __double, 2: i32 ok }
+`
+	underB := `include "ua.thrift"
+namespace go under.api
+const ua.Bucket B = {"__double": 1.0, "ok": 2}
+`
+	slimDefs := `namespace go slim.defs
+struct X { 1: i32 a }
+`
+	slimBase := `include "sdefs.thrift"
+namespace go slim.base
+typedef sdefs.X Blob
+`
+	slimApp := `include "sbase.thrift"
+namespace go slim.app
+service S { void f(1: sbase.Blob b) }
+`
 	return []Prog{
+		{Name: "corpus-leading-underscore", Files: map[string]string{"ub.thrift": underB, "ua.thrift": underA}, Main: "ub.thrift"},
+		{Name: "corpus-slim-typedef-chain", Files: map[string]string{"sapp.thrift": slimApp, "sbase.thrift": slimBase, "sdefs.thrift": slimDefs}, Main: "sapp.thrift"},
 		{Name: "corpus-throws-id-0", Files: map[string]string{"t0.thrift": throws0}, Main: "t0.thrift"},
 		{Name: "corpus-typedef-of-base", Files: map[string]string{"t.thrift": talias}, Main: "t.thrift"},
 		{Name: "corpus-naming", Files: map[string]string{"main.thrift": main, "base.thrift": base, "sub/base.thrift": sub}, Main: "main.thrift"},
